@@ -62,6 +62,8 @@ Definition LCancel := 8.          (* the manager calls Cancel *)
 Definition LStop := 9.            (* the node calls Stop (peer dropped) *)
 Definition LNoHandler := 10.      (* the tx count cannot be read: the handler never runs *)
 Definition LTimer := 11.
+Definition LStreamClosed := 12.   (* pseudo-label the harness appends to a schedule when the transaction
+                                     stream is closed at rest (ended, or cut by a cancel); no transition *)
 
 Record st := mkSt {
   run : N; res : N; after_c : bool;  (* Run's Cancel: a Complete send follows the Started send *)
@@ -174,7 +176,9 @@ Definition next_l (s : st) : list (N * st) :=
   (if ((node s =? NReader) || (node s =? NClosed)) && (hnd s =? HDone)
    then [(LTau, s <| node := NGone |>)] else []) ++
   (* ---- handler ---- *)
-  (if (hnd s =? H0) && (node s =? NReader)
+  (* (the handler thread is dispatched while the reader is installed; its first statement may run
+     after a cancel has closed the reader: the late start is why Started has room for two) *)
+  (if (hnd s =? H0) && ((node s =? NReader) || (node s =? NClosed))
    then [(LHandlerStart, s <| hnd := HSendS |>); (LHandlerStartWrong, s <| hnd := HSendS |> <| wrong := true |>)]
    else []) ++
   (if (hnd s =? HSendS) && (chS s <? capS) then [(LTau, s <| hnd := HCheck |> <| chS := chS s + 1 |>)] else []) ++
@@ -291,6 +295,24 @@ Definition tau_quiescent (n : N) : bool := match succ_by LTau n with [] => true 
 Definition schedule_admits (ext stop : N) (sched : list N) (o : observation) : bool :=
   existsb (fun n => tau_quiescent n && obs_eqb (obs_of (decode n)) o) (run_schedule ext stop sched).
 
+(* the handler thread parks only while it reads transactions: whenever no internal step is
+   possible it has not been invoked, is reading the stream, or has returned
+   (DownloaderProofs.handler_parks_only_reading_always) *)
+Definition handler_parks_only_reading (n : N) : bool :=
+  let s := decode n in
+  negb (tau_quiescent n) || (hnd s =? H0) || (hnd s =? HProc) || (hnd s =? HDone).
+
+(* What the property itself says about an observation, whatever the channel capacities are: no
+   Cancel / Stop call is parked (the harness reports that as result class 9), and once the block's
+   transaction stream has ended HandleBlock has nothing left to wait for but the signalling
+   channels, so it must have returned.  A run of the implementation that violates this is a
+   failing input even when the model regenerated from the source (capacities!) admits it. *)
+Definition is_end (l : N) : bool := (l =? LEndOk) || (l =? LEndErr) || (l =? LEndCut) || (l =? LStreamClosed).
+Definition prop_ok (sched : list N) (o : observation) : bool :=
+  negb (o_res o =? 9) && (negb (existsb is_end sched) || o_handler_done o).
+
 Record dcase := mkDCase { dc_ext : N; dc_stop : N; dc_sched : list N; dc_obs : observation }.
-Definition dcase_ok (c : dcase) : bool := schedule_admits (dc_ext c) (dc_stop c) (dc_sched c) (dc_obs c).
+Definition dcase_ok (c : dcase) : bool :=
+  schedule_admits (dc_ext c) (dc_stop c) (filter (fun l => negb (l =? LStreamClosed)) (dc_sched c)) (dc_obs c) &&
+  prop_ok (dc_sched c) (dc_obs c).
 Definition dmismatches (cs : list dcase) : list N := failing (map dcase_ok cs).
